@@ -3,6 +3,7 @@ import Morlock.Proofs.DetSeed
 import Morlock.Proofs.DetFork
 import Morlock.Proofs.DetState
 import Morlock.Props.C11
+import Morlock.Proofs.ChainSeed
 /-!
 # C18 — the search is deterministic, independent of the hash seed, and analysis never touches the game
 
@@ -470,5 +471,92 @@ example : (run C08.z0 (C08.w0.fork 0).2 (C08.w0.fork 0).1 [Op.push C08.m0, Op.pu
   decide
 
 end Example
+
+/-! ## 6. seed independence from the start position alone
+
+The hypothesis `GoodTree n` / `GoodPlay n` of §2 ("every generated move accepted within the next `n` plies is a good
+step") is *derived* here from the generator's specification (C01) and the position update (C02): it holds at every
+position satisfying `WFplay` (`Morlock/Proofs/ChainWF.lean`: C01 `WF` — views agree, at most one king per side,
+`KingHome`, plausible en-passant target — and the side not to move is not in check), and `WFplay` is preserved by
+generated moves. `GenPlay pos turn ms` (`Morlock/Proofs/ChainReach.lean`): the moves `ms`, played in turn from `pos`,
+are generated moves.
+-/
+section Reachable
+open Morlock.Proofs.Chain Morlock.Proofs.Gen
+
+/-- **`goodGen_of_wf`.** `WFplay` is an invariant of positions under which the generator only produces good steps
+(`GoodGen`): hence `GoodTree n` for every `n`, at every `WFplay` position and at every position reachable from one by
+generated moves. -/
+theorem goodGen_of_wf : GoodGen WFplay ∧
+    (∀ (n : Nat) {p : Position} {t : Color}, WFplay p t → GoodTree n p t) ∧
+    (∀ (n : Nat) {p q : Position} {t t' : Color}, WFplay p t → GenReach p t q t' → GoodTree n q t') ∧
+    (∀ (n : Nat) (ms : List Move) {p : Position} {t : Color}, WFplay p t → GenPlay p t ms → GoodPlay n p t ms) :=
+  ⟨goodGen_wfplay, fun n _ _ hw => goodTree_of_wfplay n hw, fun n _ _ _ _ hw hr => goodTree_reachable n hw hr,
+   fun n ms _ _ hw hg => goodPlay_of_wfplay n ms _ _ hw hg⟩
+
+/-- The decidable criterion `treeCheck` holds at every depth on `WFplay` positions (nothing to evaluate). -/
+theorem treeCheck_of_wf (n : Nat) {p : Position} {t : Color} (hw : WFplay p t) : treeCheck n p t = true :=
+  treeCheck_of_wfplay n hw
+
+/-- **`seed_independent_reachable`: seed independence with only `WFplay` of the start position as hypothesis.** Set up
+a board on `pos` (`WFplay pos turn`, clock `np ≥ 0`) in the empty world with table `z1`, and another with table `z2`;
+play the same generated moves `ms` on both (`GenPlay`). Then both move sequences are accepted or both refused, and in
+the former case the two worlds are related by the simulation relation at depth `d + leafDepth le` and, without a
+table, the two searches of depth `d` return the same result (halted or not, node count, score, PV) and the same final
+state. -/
+theorem seed_independent_reachable {z1 z2 : ZTable} (hz1 : z1.enpassant 0 = 0) (hz2 : z2.enpassant 0 = 0)
+    (ev : Position → Color → Int) (ex : Explore) (le : LeafEval) {pos : Position} {turn : Color}
+    (hpos : WFplay pos turn) {np : Int} (hnp : 0 ≤ np) (fm : Int) {ms : List Move} (hgen : GenPlay pos turn ms)
+    (d : Nat) (a b : Score) (st : SState) (htt : st.tt.slots.size = 0) :
+    ORel (fun w1 w2 => SeedRel z1 z2 (d + leafDepth le) w1 w2 ∧
+        alphaBetaSearch (boardGame z1 ev) ex le w1 d a b st = alphaBetaSearch (boardGame z2 ev) ex le w2 d a b st)
+      (pushAll z1 0 (({} : World).newBoard z1 pos turn np fm).1 ms)
+      (pushAll z2 0 (({} : World).newBoard z2 pos turn np fm).1 ms) :=
+  seed_independent_play hz1 hz2 ev ex le pos turn hnp fm ms (d + leafDepth le)
+    (goodPlay_of_wfplay (d + leafDepth le) ms pos turn hpos hgen) d (Nat.le_refl _) a b st htt
+
+/-- **seed independence at the start position itself** (no moves played): the two fresh boards on a `WFplay` position,
+hashed with different tables, give the same search result at every depth. -/
+theorem seed_independent_start {z1 z2 : ZTable} (hz1 : z1.enpassant 0 = 0) (hz2 : z2.enpassant 0 = 0)
+    (ev : Position → Color → Int) (ex : Explore) (le : LeafEval) {pos : Position} {turn : Color}
+    (hpos : WFplay pos turn) {np : Int} (hnp : 0 ≤ np) (fm : Int) (d : Nat) (a b : Score) (st : SState)
+    (htt : st.tt.slots.size = 0) :
+    alphaBetaSearch (boardGame z1 ev) ex le (({} : World).newBoard z1 pos turn np fm).1 d a b st =
+      alphaBetaSearch (boardGame z2 ev) ex le (({} : World).newBoard z2 pos turn np fm).1 d a b st :=
+  (seed_independent_reachable hz1 hz2 ev ex le hpos hnp fm (ms := []) trivial d a b st htt).2
+
+/-- **seed independence on any two boards showing the same game** whose (common) current position satisfies `WFplay`:
+`SeedBase` (same game, both histories good) is all that is needed besides — `GoodTree` is derived. -/
+theorem seed_independent_wf {z1 z2 : ZTable} (hz1 : z1.enpassant 0 = 0) (hz2 : z2.enpassant 0 = 0)
+    (ev : Position → Color → Int) (ex : Explore) (le : LeafEval) {w1 w2 : World} (hbase : SeedBase z1 z2 w1 0 w2 0)
+    (hwf : WFplay (w1.cur 0).pos (w1.board 0).turn) (d : Nat) (a b : Score) (st : SState)
+    (htt : st.tt.slots.size = 0) :
+    alphaBetaSearch (boardGame z1 ev) ex le w1 d a b st = alphaBetaSearch (boardGame z2 ev) ex le w2 d a b st :=
+  seed_independent hz1 hz2 ev ex le ⟨hbase, goodTree_of_wfplay (d + leafDepth le) hwf⟩ d (Nat.le_refl _) a b st htt
+
+/-- `seed_independent_start` on the initial position: the material search of any depth returns the same on the board
+hashed with `exZ` and on the board hashed with `exZ2` — nothing is evaluated. -/
+example (d : Nat) :
+    alphaBetaSearch (materialGame exZ) fullExploration .static (({} : World).newBoard exZ startPos .white 0 1).1 d
+        invalidScore invalidScore {} =
+      alphaBetaSearch (materialGame exZ2) fullExploration .static (({} : World).newBoard exZ2 startPos .white 0 1).1 d
+        invalidScore invalidScore {} :=
+  seed_independent_start (z1 := exZ) (z2 := exZ2) rfl rfl _ fullExploration .static startPos_wfplay (Int.le_refl 0) 1 d
+    _ _ {} rfl
+
+/-- `seed_independent_reachable` on the initial position after `1. Nf3 Nf6 2. Ng1 Ng8` (twice, minus the last move):
+any depth, quiescence leaves included. -/
+example (d fuel : Nat) :
+    ORel (fun w1 w2 => SeedRel exZ exZ2 (d + leafDepth (.quiescence fullExploration fuel)) w1 w2 ∧
+        alphaBetaSearch (materialGame exZ) fullExploration (.quiescence fullExploration fuel) w1 d invalidScore
+            invalidScore {} =
+          alphaBetaSearch (materialGame exZ2) fullExploration (.quiescence fullExploration fuel) w2 d invalidScore
+            invalidScore {})
+      (pushAll exZ 0 (({} : World).newBoard exZ startPos .white 0 1).1 ms7)
+      (pushAll exZ2 0 (({} : World).newBoard exZ2 startPos .white 0 1).1 ms7) :=
+  seed_independent_reachable (z1 := exZ) (z2 := exZ2) rfl rfl _ fullExploration _ startPos_wfplay (Int.le_refl 0) 1
+    (genPlay_of_check ms7 _ _ (by decide +kernel)) d _ _ {} rfl
+
+end Reachable
 
 end Morlock.Props.C18
